@@ -396,9 +396,45 @@ pub fn replay_c05(v: &Value) -> Vec<Failure> {
             eval_raw(t("first"), t("second")).0
         }
         Some("cpr_nl") => eval_nl_probe(gu("parity"), gu("zone"), gu("yz")).0,
+        Some("cold_start") => {
+            let t = |k: &str| {
+                let a = v.get(k).and_then(|x| x.as_array()).cloned().unwrap_or_default();
+                let n = |i: usize| a.get(i).and_then(|x| x.as_u64()).unwrap_or(0) as u32;
+                (n(0), n(1), n(2))
+            };
+            cold_start_pair(t("first"), t("second"))
+        }
         _ => vec![],
     };
     sigs.into_iter().map(|(sig, msg)| Failure { sig, msg, replay: v.clone() }).collect()
+}
+
+/// Cold start: the pair is the first thing a fresh process gives to the CPR decoder; the answer
+/// must be the one this (warm) process gets.  Returns (sig, msg) per difference.
+pub fn cold_start_pair(first: (u32, u32, u32), second: (u32, u32, u32)) -> Vec<(String, String)> {
+    use std::io::Write;
+    let Ok(exe) = std::env::current_exe() else { return vec![] };
+    let Ok(mut child) = std::process::Command::new(exe).arg("helper").stdin(std::process::Stdio::piped()).stdout(std::process::Stdio::piped()).stderr(std::process::Stdio::null()).spawn() else { return vec![] };
+    let req = json!({"cmd": "firstpair", "pair": [[first.0, first.1, first.2], [second.0, second.1, second.2]]});
+    if let Some(mut si) = child.stdin.take() {
+        let _ = si.write_all(req.to_string().as_bytes());
+    }
+    let Ok(o) = child.wait_with_output() else { return vec![] };
+    let Ok(v) = serde_json::from_slice::<Value>(&o.stdout) else { return vec![] };
+    let a = report(first.0, first.1, first.2);
+    let b = report(second.0, second.1, second.2);
+    let warm = |x: &Altitude, y: &Altitude| match catch_unwind(AssertUnwindSafe(|| get_position((x, y)))) {
+        Ok(p) => format!("{p:?}"),
+        Err(_) => "panic".to_string(),
+    };
+    let mut out = vec![];
+    for (key, here) in [("ab", warm(&a, &b)), ("ba", warm(&b, &a))] {
+        let Some(there) = v[key].as_str() else { continue };
+        if there != here {
+            out.push(("C05/cold_start".to_string(), format!("pairing {first:?} with {second:?} ({}) as the first act of a fresh process gives `{there}`, in a process that has decoded before it gives `{here}`", if key == "ab" { "in this order" } else { "in the other order" })));
+        }
+    }
+    out
 }
 
 pub fn run_c05(ctx: &Ctx) -> ! {
@@ -513,6 +549,66 @@ pub fn run_c05(ctx: &Ctx) -> ! {
             }
         }
     });
+    // ---- cold start: pairs that are the first thing a fresh process decodes (a decoder that
+    // remembers anything must start from a state that answers nothing): the equator, the poles,
+    // the zone-grid origins, both sides of NL transitions, and random pairs
+    {
+        let mut rng = ctx.rng(55, 0);
+        let mut pairs: Vec<((u32, u32, u32), (u32, u32, u32))> = vec![];
+        for xz in [0u32, 1, 65536, 131071, 40000] {
+            pairs.push(((0, 0, xz), (1, 0, xz)));
+            pairs.push(((1, 0, xz), (0, 0, xz)));
+            pairs.push(((0, 0, xz), (1, 1, xz)));
+            pairs.push(((0, 1, xz), (1, 0, xz)));
+            pairs.push(((0, 131071, xz), (1, 131071, xz)));
+        }
+        for (lat, lon) in [(90.0f64, 0.0f64), (-90.0, 10.0), (87.0, 20.0), (-87.0, -20.0), (0.0, 0.0), (0.0, 180.0), (1e-9, -1e-9), (52.0, 4.0), (10.4712, 30.0), (-10.4712, 30.0), (83.9918, 5.0), (84.0, 5.0)] {
+            let e = refcpr::encode(lat, lon, 0);
+            let o = refcpr::encode(lat, lon, 1);
+            pairs.push(((0, e.0, e.1), (1, o.0, o.1)));
+            pairs.push(((1, o.0, o.1), (0, e.0, e.1)));
+        }
+        for _ in 0..ctx.tier.pick(24usize, 2000) {
+            let (lat, lon) = (rng.below(1800) as f64 / 10.0 - 90.0, rng.below(3600) as f64 / 10.0 - 180.0);
+            let e = refcpr::encode(lat, lon, 0);
+            let o = refcpr::encode(lat, lon, 1);
+            pairs.push(((0, e.0, e.1), (1, o.0, o.1)));
+        }
+        let results: Vec<Vec<(String, String, Value)>> = {
+            let pairs = &pairs;
+            let mut out = vec![];
+            std::thread::scope(|sc| {
+                let hs: Vec<_> = (0..WORKERS)
+                    .map(|w| {
+                        sc.spawn(move || {
+                            let mut v = vec![];
+                            for (i, (a, b)) in pairs.iter().enumerate() {
+                                if i % WORKERS != w {
+                                    continue;
+                                }
+                                for (sig, msg) in cold_start_pair(*a, *b) {
+                                    v.push((sig, msg, json!({"kind": "cold_start", "first": [a.0, a.1, a.2], "second": [b.0, b.1, b.2]})));
+                                }
+                            }
+                            v
+                        })
+                    })
+                    .collect();
+                for h in hs {
+                    out.push(h.join().unwrap_or_default());
+                }
+            });
+            out
+        };
+        st.evaluations += pairs.len() as u64;
+        st.nontrivial_enum += pairs.len() as u64;
+        st.class_n("pair decoded as the first act of a fresh process", pairs.len() as u64);
+        for (sig, msg, replay) in results.into_iter().flatten() {
+            if !st.failures.contains_key(&sig) {
+                st.fail(Failure { sig, msg, replay });
+            }
+        }
+    }
     st.samples.push(json!({"kind":"cpr_nl","parity":0,"zone":8,"yz":70000,"meaning":"probe of even zone latitude 6*(8+70000/2^17) deg"}));
     st.exhaustive.push("all reachable zone latitudes (both parities, every zone index and 17-bit YZ with latitude in [-90,90]): observable longitude-zone count".into());
     let mut vac = vec![];
